@@ -9,8 +9,8 @@ for D0 in "$@"; do D=$(cd "$D0" && pwd)
   EXTRA=$(grep -o '\-Wl,--wrap=[a-z,=-]*' "$D/meta.json" | head -1)
   build() { (cd "$WT" && cmake -G Ninja -B _build -DCMAKE_BUILD_TYPE=Release >/dev/null 2>&1 && cmake --build _build -j6 >/dev/null 2>&1); }
   demo() { LIB=$(ls "$WT"/_build/src/libbee2_static.a 2>/dev/null); 
-           if [ -n "$EXTRA" ] && [ -n "$LIB" ]; then cc -O1 "$D/demo.c" -I"$WT/include" -I"$WT/src" $EXTRA "$LIB" -lpthread -o "$WT/demo" 2>>"$R";
-           else cc -O1 "$D/demo.c" -I"$WT/include" -I"$WT/src" -L"$WT/_build/src" -lbee2 -Wl,-rpath,"$WT/_build/src" -lpthread -o "$WT/demo" 2>>"$R"; fi && (cd "$WT" && timeout 600 ./demo >/dev/null 2>&1); echo $?; }
+           if [ -n "$EXTRA" ] && [ -n "$LIB" ]; then cc "$D/demo.c" -I"$WT/include" -I"$WT/src" $EXTRA "$LIB" -lpthread -o "$WT/demo" 2>>"$R";
+           else cc "$D/demo.c" -I"$WT/include" -I"$WT/src" -L"$WT/_build/src" -lbee2 -Wl,-rpath,"$WT/_build/src" -lpthread -o "$WT/demo" 2>>"$R"; fi && (cd "$WT" && timeout 600 ./demo >/dev/null 2>&1); echo $?; }
   build || echo "pristine build failed" >> "$R"
   echo "demo on pristine tree: exit $(demo)" >> "$R"
   if git -C "$WT" apply "$D/patch.diff" 2>>"$R"; then
